@@ -50,7 +50,7 @@ pub struct KnownFile {
 }
 
 pub fn load_known() -> KnownFile {
-    let p = format!("{}/known_findings.json", verif_root());
+    let p = std::env::var("VERIF_KNOWN").unwrap_or_else(|_| format!("{}/known_findings.json", verif_root()));
     match std::fs::read(&p) {
         Ok(b) => serde_json::from_slice(&b).unwrap_or_else(|e| {
             eprintln!("HARNESS: cannot parse {}: {}", p, e);
